@@ -572,10 +572,10 @@ class TextScenario(Scenario):
             # 999 stands for a look-up value that is not hashable (the not-hashable index path)
             r = self.src.find_system("v", ["x"] if arg == 999 else text_value(arg))
             return [0] if r is None else [1, int(r)]
-        except ValueError as e:
-            if "does not match" in str(e) or "Error while parsing" in str(e):
-                return [8]
-            raise
+        except ValueError:
+            # the file (as it is now) has a line that does not match and mismatch_action is error; the message text
+            # is not fixed by anything, so it is not matched on
+            return [8]
         except FileNotFoundError:
             return [8]
         finally:
@@ -821,7 +821,9 @@ class YamlScenario(Scenario):
         try:
             data, _version = self.src.get_data("sys", {}, "")
         except RuntimeError as e:
-            if "Error processing data file" in str(e):
+            # a data file that cannot be processed: RuntimeError chained to its cause (the message text is not
+            # fixed by anything: do not match on it)
+            if e.__cause__ is not None:
                 return [8]
             raise
         def unv(v):
